@@ -2,6 +2,7 @@ import GoSSE.Proofs.SessionServer
 import GoSSE.Proofs.GenEquivSession
 import GoSSE.Proofs.GenEquivUpgrade
 import GoSSE.Proofs.GenEquivWriters
+import GoSSE.Proofs.GenEquivServer
 /-!
 # C16 — Session and Server keep the HTTP side of the protocol
 
@@ -374,5 +375,20 @@ example :
     (Gen.getResponseWriter 5 (GenEquiv.toDyn (.wrapped .plain (.wrapped .both (.base .flusher))) 0)).map GenEquiv.resView =
       .ok (some ("flusherErrorWrapper", 1)) := by
   rfl
+
+/-- **`Server.getSubscription` as translated from server.go** — "subscribes the session to the topics chosen by OnSession
+(the default topic if it names none)". `OnSession` is the caller's callback: a parameter (`none` = the field is nil), read
+from the field **at this call**. For every session and every callback the translated function does not fault, leaves
+server and session alone, and answers the model's `getSubscription` of what the callback returned for this session's
+writer and request: the subscriber is this session, with its `LastEventID`; the topics are the callback's when it approves
+and names at least one, else the default topic; the verdict is the callback's (`true` without one). -/
+theorem translated_getSubscription_is_model {σ : Type} (fuel : Nat) (s : Gen.Server) (sess : Gen.Session σ)
+    (asW : Gen.Session σ → GoRT.MsgWriter Gen.Message σ)
+    (onS : Option (GoRT.ResW σ → Option GoRT.HttpReq → (List Bytes × Bool))) :
+    Gen.Server_getSubscription fuel s sess asW onS =
+      .ok (({ Client := asW sess, LastEventID := sess.LastEventID,
+              Topics := (getSubscription none (onS.map fun f => f sess.Res sess.Req)).1.topics } : Gen.Subscription σ),
+           (getSubscription none (onS.map fun f => f sess.Res sess.Req)).2, s, sess) :=
+  GenEquiv.getSubscription_eq fuel s sess asW onS
 
 end GoSSE.Props.C16
